@@ -507,7 +507,7 @@ func emitC01Sources(repo string) (string, any, error) {
 	if err != nil {
 		return "", nil, err
 	}
-	var timeNow, randUse, goSel, pkgWrites, keeperFields, captured, sorts []srcFact
+	var timeNow, randUse, goSel, pkgWrites, keeperFields, captured, sorts, localTime []srcFact
 	nFuncs := 0
 	for _, pkg := range w.sortedPkgs() {
 		for _, f := range pkg.Files {
@@ -563,6 +563,29 @@ func emitC01Sources(repo string) (string, any, error) {
 								}
 							}
 							timeNow = append(timeNow, srcFact{f.Path, fn, what, f.line(v)})
+						}
+						// values of type time.Time built in the HOST's time zone: time.Unix & co. return time.Local times,
+						// x.Local() / x.In(loc) / time.LoadLocation / time.ParseInLocation / time.Parse depend on the host's
+						// zone database or TZ.  detail = `utc` when the result is converted at once (`.UTC()` on the call, or
+						// the call is an argument of tmtime.Canonical), `local` otherwise.
+						isLocal := t == "time.Unix" || t == "time.UnixMilli" || t == "time.UnixMicro" || t == "time.LoadLocation" ||
+							t == "time.ParseInLocation" || t == "time.Parse" || strings.HasSuffix(t, ".Local") || strings.HasSuffix(t, ".In")
+						if t == "time.Date" && len(v.Args) == 8 && f.text(v.Args[7]) != "time.UTC" {
+							isLocal = true
+						}
+						if isLocal {
+							what := "local"
+							if len(stack) > 1 {
+								if sel, ok := stack[len(stack)-1].(*ast.SelectorExpr); ok && sel.Sel.Name == "UTC" {
+									what = "utc"
+								}
+							}
+							if len(stack) > 0 {
+								if pc, ok := stack[len(stack)-1].(*ast.CallExpr); ok && strings.HasSuffix(f.text(pc.Fun), "Canonical") {
+									what = "utc"
+								}
+							}
+							localTime = append(localTime, srcFact{f.Path, fn, t + ":" + what, f.line(v)})
 						}
 						if strings.HasPrefix(t, "sort.") {
 							sorts = append(sorts, srcFact{f.Path, fn, t, f.line(v)})
@@ -669,8 +692,9 @@ func emitC01Sources(repo string) (string, any, error) {
 	leanFacts(&sb, "keeperFields", "fields of every keeper struct, detail = kind of the field type", keeperFields)
 	leanFacts(&sb, "invariantCaptures", "variables of an invariant constructor that the returned closure assigns (sticky across calls)", captured)
 	leanFacts(&sb, "sortCalls", "calls into package sort", sorts)
+	leanFacts(&sb, "localTimeCalls", "calls that build a time.Time in the host's time zone or consult its zone database (time.Unix, x.Local(), x.In, time.Parse, ...); detail = call:utc when converted to UTC at once, call:local otherwise", localTime)
 	sb.WriteString("end KV.Gen.C01\n")
 	facts := map[string]any{"timeNow": timeNow, "rand": randUse, "goSelect": goSel, "pkgVarWrites": pkgWrites,
-		"keeperFields": keeperFields, "invariantCaptures": captured, "sortCalls": sorts}
+		"keeperFields": keeperFields, "invariantCaptures": captured, "sortCalls": sorts, "localTime": localTime}
 	return sb.String(), facts, nil
 }
